@@ -1479,6 +1479,11 @@ def eval : Nat → Ctx → Frame → Expr → St → Res
     -- it (`envSet`).  `&mut` of anything else stays without a rule (`unOp .refMut`).
     | .unary .refMut (.path [x]) =>
       match envGet st.env x with
+      -- [threads] a local that holds an object of an extension dictionary: the dictionary's `refMut` rule decides
+      | some (.ext tag args) =>
+        match ctx.ext.refMut ctx.inputs (.ext tag args) st with
+        | some r => r
+        | none => .val (.ext "&mut" [.str x]) st
       | some _ => .val (.ext "&mut" [.str x]) st
       | none => .stuck "&mut of something that is not a local variable"
     -- [errors] BEGIN: `&mut *p` where `p` is an object of an extension dictionary (a raw pointer): the
